@@ -88,7 +88,7 @@ theorem getElem?_snakeColumn (lengths : List Nat) (i : Nat) (v : List α) (s : B
     · rw [h] at hsplit; simp [hsplit] at hp
     · exact h
   unfold snakeColumn
-  simp only [hT, hR]
+  simp only [Gen.tilesUpTo, Gen.repeatsFrom, Gen.forwardFirst, Nat.add_zero, if_true, hT, hR]
   rw [List.getElem?_take, if_pos hp]
   cases s with
   | false =>
@@ -121,6 +121,7 @@ theorem length_snakeColumn (lengths : List Nat) (i : Nat) (v : List α) (s : Boo
     (snakeColumn lengths i v s).length = prod lengths := by
   have hsplit := prod_split lengths i v.length hi
   unfold snakeColumn
+  simp only [Gen.tilesUpTo, Gen.repeatsFrom, Gen.forwardFirst, Nat.add_zero, if_true]
   rw [List.length_take, length_tile, length_repeatEach]
   apply Nat.min_eq_left
   rw [hsplit]
@@ -319,9 +320,10 @@ theorem snakeCyclers_closed_form (cyclers : List (List α)) (flags : List Bool)
   unfold snakeCyclers
   rw [if_neg (by simp [hlen])]
   simp only [traj, axesOf_fst cyclers flags hlen, List.map_map]
-  split
+  by_cases hno : noSnaking flags = true
   · -- no snaking beyond the first axis: product path
-    rename_i hno
+    rw [if_pos hno]
+    simp only [noSnaking, Gen.shortcutFlagsFrom] at hno
     rw [reduce1_mulC cyclers hne, prodPts_eq_grid, grid_eq_digits, List.map_map]
     show Res.ok _ = Res.ok _
     congr 1
@@ -348,6 +350,7 @@ theorem snakeCyclers_closed_form (cyclers : List (List α)) (flags : List Bool)
         simp only [axesOf, List.map_cons, List.zip_cons_cons, idxs, digits, hfst]
         rw [idxAt_first _ _ _ _ (by simpa [prod] using hp'), idxs_unsnaked _ hall, hfst]
   · -- snaking: tile/repeat path
+    rw [if_neg hno]
     have hcols : snakeColumns cyclers flags ≠ [] := by
       cases cyclers with
       | nil => exact absurd rfl hne
